@@ -37,7 +37,9 @@
 (***************************************************************************)
 EXTENDS Integers, Sequences, FiniteSets
 
-CONSTANTS Configs,  \* set of group parameters <<N, H, Quorum>>:
+CONSTANTS NominalSize, \* FALSE = signingExecutor.sign as written; TRUE = hazard: the protocol is started for the
+                       \* NOMINAL group size (GroupParameters) instead of the stored wallet's size
+          Configs,  \* set of group parameters <<N, H, Quorum>>:
                     \*   N      group size (seats 1..N)
                     \*   H      honest threshold: members needed for a signature
                     \*   Quorum GroupQuorum: operating members needed for a valid key generation result
@@ -45,7 +47,7 @@ CONSTANTS Configs,  \* set of group parameters <<N, H, Quorum>>:
           Shift     \* TRUE = finalSigningGroup as written
 
 ASSUME /\ \A c \in Configs : c[1] \in Nat /\ c[2] \in 1..c[1] /\ c[3] \in c[2]..c[1]
-       /\ Seed \in Nat /\ Shift \in BOOLEAN
+       /\ Seed \in Nat /\ Shift \in BOOLEAN /\ NominalSize \in BOOLEAN
 
 RECURSIVE SortedSeq(_)
 SortedSeq(S) ==
@@ -67,6 +69,7 @@ DkgMemberOf(k) == IF Seed > k THEN 0 ELSE k - Seed
 
 NoShare == [ks |-> <<>>, id |-> 0]
 NoReg   == [st |-> "none", idx |-> 0, ops |-> <<>>]
+NoProto == [size |-> 0, dishonest |-> 0, excl |-> {}]
 
 VARIABLES
     N, H, Quorum,  \* the group parameters of this behaviour (fixed by Init)
@@ -78,11 +81,12 @@ VARIABLES
     share,      \* share[m]: what tss-lib keygen saved for m
     reg,        \* reg[m]: what registerSigner persisted for m
     signers,    \* final indices selected for the signing attempt
+    proto,      \* what signingExecutor.sign hands to signing.Execute for the attempt
     sgParty,    \* sgParty[m]: own TSS party key in signing (0 = not built)
     sgCtx,      \* sgCtx[m]: sorted peer context in signing
     outcome     \* "none" | "valid" | "invalid" | "panic" | "nowallet" | "nokey"
 
-vars == <<N, H, Quorum, stage, excluded, grp, kgParty, kgCtx, share, reg, signers, sgParty, sgCtx, outcome>>
+vars == <<N, H, Quorum, stage, excluded, grp, kgParty, kgCtx, share, reg, signers, proto, sgParty, sgCtx, outcome>>
 
 Members == 1..N
 Running == Members \ excluded
@@ -97,7 +101,7 @@ Init ==
         /\ kgCtx = [m \in 1..c[1] |-> <<>>]
         /\ share = [m \in 1..c[1] |-> NoShare]
         /\ reg = [m \in 1..c[1] |-> NoReg]
-        /\ signers = {}
+        /\ signers = {} /\ proto = NoProto
         /\ sgParty = [m \in 1..c[1] |-> 0]
         /\ sgCtx = [m \in 1..c[1] |-> <<>>]
         /\ outcome = "none"
@@ -111,14 +115,14 @@ SelectExcluded(E) ==
     /\ stage = "select"
     /\ N - Cardinality(E) >= H
     /\ excluded' = E /\ stage' = "keygen"
-    /\ UNCHANGED <<params, grp, kgParty, kgCtx, share, reg, signers, sgParty, sgCtx, outcome>>
+    /\ UNCHANGED <<params, proto, grp, kgParty, kgCtx, share, reg, signers, sgParty, sgCtx, outcome>>
 DoSelectExcluded == \E E \in SUBSET Members : SelectExcluded(E)
 
 \* Executor.Execute: for each excluded index != own id: MarkMemberAsDisqualified
 MarkExcluded(m) ==
     /\ stage = "keygen" /\ m \in Running /\ grp[m] = {}
     /\ grp' = [grp EXCEPT ![m] = Members \ (excluded \ {m})]
-    /\ UNCHANGED <<params, stage, excluded, kgParty, kgCtx, share, reg, signers, sgParty, sgCtx, outcome>>
+    /\ UNCHANGED <<params, proto, stage, excluded, kgParty, kgCtx, share, reg, signers, sgParty, sgCtx, outcome>>
 DoMarkExcluded == \E m \in Members : MarkExcluded(m)
 
 \* dkg initializeTssRoundOne: GenerateTssPartiesIDs over the operating seats,
@@ -127,7 +131,7 @@ BuildKeygenParty(m) ==
     /\ stage = "keygen" /\ m \in Running /\ grp[m] # {} /\ kgParty[m] = 0
     /\ kgParty' = [kgParty EXCEPT ![m] = DkgKey(m)]
     /\ kgCtx' = [kgCtx EXCEPT ![m] = SortedSeq({DkgKey(x) : x \in grp[m]})]
-    /\ UNCHANGED <<params, stage, excluded, grp, share, reg, signers, sgParty, sgCtx, outcome>>
+    /\ UNCHANGED <<params, proto, stage, excluded, grp, share, reg, signers, sgParty, sgCtx, outcome>>
 DoBuildKeygenParty == \E m \in Members : BuildKeygenParty(m)
 
 KeygenReady == \A m \in Running : kgParty[m] # 0
@@ -145,7 +149,7 @@ KeygenCompletes ==
                               ELSE NoShare]
                /\ stage' = "wallet" /\ UNCHANGED outcome
           ELSE /\ stage' = "done" /\ outcome' = "nokey" /\ UNCHANGED share
-    /\ UNCHANGED <<params, excluded, grp, kgParty, kgCtx, reg, signers, sgParty, sgCtx>>
+    /\ UNCHANGED <<params, proto, excluded, grp, kgParty, kgCtx, reg, signers, sgParty, sgCtx>>
 
 ---------------------------------------------------------------------------
 (* registerSigner / finalSigningGroup *)
@@ -159,7 +163,7 @@ Register(m) ==
                    IF Cardinality(op) < Quorum \/ m \notin op
                       THEN [st |-> "err", idx |-> 0, ops |-> <<>>]
                       ELSE [st |-> "ok", idx |-> FinalIndex(m, op), ops |-> SortedSeq(op)]]
-    /\ UNCHANGED <<params, stage, excluded, grp, kgParty, kgCtx, share, signers, sgParty, sgCtx, outcome>>
+    /\ UNCHANGED <<params, proto, stage, excluded, grp, kgParty, kgCtx, share, signers, sgParty, sgCtx, outcome>>
 DoRegister == \E m \in Members : Register(m)
 
 AllRegistered == \A m \in Running : reg[m].st # "none"
@@ -170,7 +174,7 @@ GroupSize     == Len(reg[CHOOSE m \in Running : TRUE].ops)     \* wallet.groupSi
 NoWallet ==
     /\ stage = "wallet" /\ AllRegistered /\ ~WalletOk
     /\ stage' = "done" /\ outcome' = "nowallet"
-    /\ UNCHANGED <<params, excluded, grp, kgParty, kgCtx, share, reg, signers, sgParty, sgCtx>>
+    /\ UNCHANGED <<params, proto, excluded, grp, kgParty, kgCtx, share, reg, signers, sgParty, sgCtx>>
 
 ---------------------------------------------------------------------------
 (* a signing attempt *)
@@ -181,26 +185,41 @@ ChooseSigners(Q) ==
     /\ stage = "wallet" /\ AllRegistered /\ WalletOk
     /\ Q \subseteq 1..GroupSize /\ Cardinality(Q) >= H
     /\ signers' = Q /\ stage' = "attempt"
-    /\ UNCHANGED <<params, excluded, grp, kgParty, kgCtx, share, reg, sgParty, sgCtx, outcome>>
+    /\ UNCHANGED <<params, proto, excluded, grp, kgParty, kgCtx, share, reg, sgParty, sgCtx, outcome>>
 DoChooseSigners == \E Q \in SUBSET Members : ChooseSigners(Q)
 
 Selected(m) == m \in Running /\ reg[m].idx \in signers
+
+\* pkg/tbtc/signing.go signingExecutor.sign -> signing.Execute(..., wallet.groupSize(),
+\* wallet.groupDishonestThreshold(HonestThreshold), attempt.excludedMembersIndexes, ...):
+\* the protocol group is the STORED wallet (len(signingGroupOperators) seats), the dishonest
+\* threshold is stored size - H, the attempt's excluded members are the unselected indices of
+\* the stored operators list (signing_loop.go excludedMembersIndexes).
+DeriveParameters ==
+    /\ stage = "attempt" /\ proto = NoProto
+    /\ LET size == IF NominalSize THEN N ELSE GroupSize IN
+         proto' = [size |-> size, dishonest |-> size - H, excl |-> (1..GroupSize) \ signers]
+    /\ UNCHANGED <<params, stage, excluded, grp, kgParty, kgCtx, share, reg, signers, sgParty, sgCtx, outcome>>
+
+\* the members the protocol is told to expect messages from / build parties for
+Expected == (1..proto.size) \ proto.excl
 
 \* signing.Execute marking loop + initializeTssRoundOne with identityConverter{keys: Ks}:
 \* group of GroupSize seats, dishonest threshold GroupSize-H, the unselected
 \* final indices disqualified, party key of final index i is Ks[i-1]
 BuildSigningParty(m) ==
-    /\ stage = "attempt" /\ Selected(m) /\ sgParty[m] = 0
+    /\ stage = "attempt" /\ proto # NoProto /\ Selected(m) /\ sgParty[m] = 0
     /\ LET ks == share[m].ks
-           operating == signers \cup {reg[m].idx}
+           operating == Expected \cup {reg[m].idx}      \* Execute never disqualifies the member itself
        IN IF \E i \in operating : i > Len(ks)
-             THEN \* ic.keys[memberIndex-1]: index out of range
+             THEN \* a member that does not exist is expected: the first state waits for its message
+                  \* for ever (and ic.keys[i-1] would be out of range): no signature
                   /\ stage' = "done" /\ outcome' = "panic"
                   /\ UNCHANGED <<sgParty, sgCtx>>
              ELSE /\ sgParty' = [sgParty EXCEPT ![m] = ks[reg[m].idx]]
                   /\ sgCtx' = [sgCtx EXCEPT ![m] = SortedSeq({ks[i] : i \in operating})]
                   /\ UNCHANGED <<stage, outcome>>
-    /\ UNCHANGED <<params, excluded, grp, kgParty, kgCtx, share, reg, signers>>
+    /\ UNCHANGED <<params, proto, excluded, grp, kgParty, kgCtx, share, reg, signers>>
 DoBuildSigningParty == \E m \in Members : BuildSigningParty(m)
 
 Owners(f) == {m \in Running : reg[m].idx = f}
@@ -216,11 +235,11 @@ SignCompletes ==
     /\ \A m \in Running : Selected(m) => sgParty[m] # 0
     /\ stage' = "done"
     /\ outcome' = IF SigningAgrees THEN "valid" ELSE "invalid"
-    /\ UNCHANGED <<params, excluded, grp, kgParty, kgCtx, share, reg, signers, sgParty, sgCtx>>
+    /\ UNCHANGED <<params, proto, excluded, grp, kgParty, kgCtx, share, reg, signers, sgParty, sgCtx>>
 
 Next ==
     \/ DoSelectExcluded \/ DoMarkExcluded \/ DoBuildKeygenParty \/ KeygenCompletes
-    \/ DoRegister \/ NoWallet \/ DoChooseSigners \/ DoBuildSigningParty \/ SignCompletes
+    \/ DoRegister \/ NoWallet \/ DoChooseSigners \/ DeriveParameters \/ DoBuildSigningParty \/ SignCompletes
 
 Spec == Init /\ [][Next]_vars
 
@@ -277,6 +296,17 @@ SigningPartiesAreKeygenParties ==
 QuorumIsValid ==
     stage \in {"attempt", "done"} /\ signers # {} =>
         signers \subseteq {reg[m].idx : m \in Registered}
+
+\* every index the protocol is told to expect is a stored final index, the selected
+\* signers are exactly the expected members, and enough of them remain
+NoPhantomMembers ==
+    proto # NoProto =>
+        /\ 1..proto.size = {reg[m].idx : m \in Registered}
+        /\ Expected = signers
+QuorumRemains ==
+    proto # NoProto =>
+        /\ Cardinality(Expected) >= H
+        /\ proto.size - proto.dishonest = H              \* TSS threshold H-1, as in key generation
 
 \* C08, first sentence (index part): every honest quorum of the final group signs
 QuorumSigns == outcome \notin {"invalid", "panic", "nokey"}
